@@ -40,6 +40,8 @@ def leaf_prog(leaf, q):
         "array": [["from", U], ["select", [k(["array", [["raw", 1], ["raw", 2]]])]]],
         "interval": [["from", U], ["select", [k(["arith", "+", ux, ["interval", {"days": 1, "hours": 2}]])]]],
         "json": [["from", U], ["select", [k(ux)]], ["where", ["jsonop", "contains", ["f", "u", "j"], ["$dict", [["a", 1]]]]]],
+        "jsondict": [["from", U], ["select", [k(["raw", {"$dict": [["a", "x\\y\"z'w"], ["b", [1, "q\\"]]]}])]]],
+        "jsondict_set": [["update", U], ["set", "j", ["raw", {"$dict": [["a", "x\\y\"z'w"]]}]], ["where", ["cmp", "=", uy, ["raw", "a\\b"]]]],
         "groupalias": [["from", U], ["select", [k(["arith", "+", ux, ["raw", 1]])]], ["groupby", [k(["arith", "+", ux, ["raw", 1]])]]],
         "limit": [["from", U], ["select", [k(ux)]], ["orderby", [ux], "asc"], ["limit", 3], ["offset", 1]],
     }[leaf]
@@ -65,8 +67,8 @@ def embed(construct, inner, q, level):
     return {"calls": c, "q": q}
 
 
-NEUTRAL = {"ident", "value", "value2", "backslash", "json"}
-LEAVES = ["ident", "value", "value2", "backslash", "bool", "bool_crit", "array", "interval", "json", "groupalias", "limit"]
+NEUTRAL = {"ident", "value", "value2", "backslash", "json", "jsondict", "jsondict_set"}
+LEAVES = ["ident", "value", "value2", "backslash", "bool", "bool_crit", "array", "interval", "json", "jsondict", "jsondict_set", "groupalias", "limit"]
 
 
 def chunks(tier, seed):
@@ -95,6 +97,8 @@ def expand(chunk):
             continue
         if "setop_base" in path[1:] and False:
             continue
+        if chunk["leaf"] == "jsondict_set" and path:
+            continue  # an UPDATE is not a subquery
         for inner_cls in ("same", "generic"):
             yield {"leaf": chunk["leaf"], "path": list(path), "inner": inner_cls}
 
@@ -258,6 +262,21 @@ def run_case(case):
             res.extra.setdefault("disabled_kinds", set()).add(type(e).__name__)
             continue
         res.nontrivial = 1
+        # render history: the same statement object rendered for another dialect first
+        try:
+            o2 = prog.build(p, dialect=d)
+            other = "generic" if d in ("mysql", "oracle") else "mysql"
+            try:
+                o2.get_sql(fp.CTX[other])
+            except Exception:
+                pass
+            a_, b_ = prog.render(o2, d)[0], prog.render(prog.build(p, dialect=d), d)[0]
+            res.transitions += 2
+            if a_ != b_:
+                res.violate("C08|render-history|%s|%s" % (d, leaf), "the statement renders differently after the same object was rendered "
+                            "for another dialect (%s)" % other, dialect=d, leaf=leaf, path=path, inner=inner_cls, fresh=b_, after=a_)
+        except Exception:
+            pass
         for param in (False, True):
             res.transitions += 1
             try:
